@@ -17,10 +17,10 @@ RULE = (
     "(shape, observed pattern, k, batch set); non-trivial = the batch is non-empty or some sample has fewer than k plates"
 )
 ASSUMPTIONS = ["states are memoised on the set of batch plates (quick: <=9 plates; thorough: always) or on per-sample batch counts (larger shapes)"]
-REQUIRED = {"holders_not_in_plate_id_order": {"quick": 1000, "thorough": 8000}, "states_checked": {"quick": 3000, "thorough": 20000}, "walk_steps": {"quick": 300, "thorough": 5000}, "multi_sample_refusals": {"quick": 8, "thorough": 50}, "batches_revealed_in_place": {"quick": 60, "thorough": 800}}
+REQUIRED = {"holders_not_in_plate_id_order": {"quick": 1000, "thorough": 8000}, "states_checked": {"quick": 3000, "thorough": 20000}, "walk_steps": {"quick": 300, "thorough": 5000}, "multi_sample_refusals": {"quick": 40, "thorough": 250}, "multi_sample_layout_1": {"quick": 6, "thorough": 40}, "batches_revealed_in_place": {"quick": 60, "thorough": 800}}
 
 
-def build_screen(Screen, shape, observed_plates=(), multi=None):
+def build_screen(Screen, shape, observed_plates=(), multi=None, multi_where=2):
     """shape: plates per sample.  Every plate holds 1-2 rows of its sample."""
     tn, td, sn, pn = [], [], [], []
     pid = 0
@@ -36,11 +36,22 @@ def build_screen(Screen, shape, observed_plates=(), multi=None):
                 pn.append(name)
             pid += 1
     if multi is not None:
-        # one extra row of another sample on plate `multi`
-        tn.append(["a", "b"])
-        td.append([1.0, 2.0])
-        sn.append("s_other")
-        pn.append("p%02d" % multi)
+        # rows of another sample on plate `multi`: in front of, between or behind the plate's own rows
+        pname = "p%02d" % multi
+        own = [i for i, p in enumerate(pn) if p == pname]
+        if len(own) < 2:
+            tn.append(["a", "b"])
+            td.append([1.0, 2.0])
+            sn.append(sn[own[0]])
+            pn.append(pname)
+            own.append(len(pn) - 1)
+        at = {0: own[0], 1: own[-1], 2: len(pn)}[multi_where % 3]  # insert before the first, before the last, at the end
+        for seq, x in ((tn, ["a", "b"]), (td, [1.0, 2.0]), (sn, "s_other"), (pn, pname)):
+            seq.insert(at, x)
+        if multi_where >= 3:
+            # and a second foreign sample elsewhere on the plate
+            for seq, x in ((tn, ["a", "b"]), (td, [1.0, 2.0]), (sn, "s_third"), (pn, pname)):
+                seq.insert(own[-1] + 1, x)
     pn = np.array(pn, dtype=str)
     obs = (np.arange(len(pn)) + 1.0) / (len(pn) + 2.0)
     mask = np.isin(pn, ["p%02d" % p for p in observed_plates])
@@ -244,11 +255,12 @@ def run_shard(rec, tier, seed, shard, nshards):
             rec.sample({"kind": "walk", "shape": list(shape), "k": k, "observed": list(observed), "selection_history": trace})
 
     # ------------------------------------------------ multi-sample plates refused
-    for _ in range(3 if tier == "quick" else 10):
+    for mi in range(6 if tier == "quick" else 18):
         shape = tuple(int(x) for x in rng.integers(1, 4, size=int(rng.integers(1, 4))))
         tot = sum(shape)
         bad = int(rng.integers(tot))
-        screen = build_screen(Screen, shape, (), multi=bad)
+        screen = build_screen(Screen, shape, (), multi=bad, multi_where=mi % 6)
+        rec.count("multi_sample_layout_%d" % (mi % 6))
         policy = KPerSamplePlatePolicy(int(rng.integers(1, 4)))
         unobserved = sorted(int(p.plate_id) for p in screen.plates)
         rec.case(("multi", shape, bad))
